@@ -59,7 +59,7 @@ PROPS = {
              "plans = 1..20 comparisons per run: pairs of generated well-formed versions (N(.N)*[word[N]], words incl. snap/pre/alpha/beta/rc), near-identical pairs, and wild strings of "
              "letter/digit/punctuation runs with lengths biased to 1, 126..129, 200, 1000; arguments are exact-size simulated blocks; each comparison runs under two stack paints, after "
              "another call, in both argument orders and against itself; reference comparator on well-formed pairs where the statement defines the order; distinct = distinct trace hash; non-trivial = >= 3 comparisons",
-             probes=["wellformed_pair", "prerelease_word_pair", "suffix_vs_bare", "run_longer_than_127"]),
+             probes=["wellformed_pair", "prerelease_word_pair", "suffix_vs_bare", "run_longer_than_127", "zero_padded_component"]),
     "C05": P(["asan"], 30, 900,
              "plans = seeded programs (4..30 ops) over a pool of 6 objects drawn from 16 kinds (str, ustr, mbuff, objpair, tok, url, regexp, list/vector/map x array/linked_list/dlinked_list; "
              "vobj or str elements) with make/mutate/query/dup/done+re-init/del; allocator policies incl. garbage fill, immediate address reuse and far-apart placement; "
